@@ -190,7 +190,7 @@ pub fn run(ctx: &Ctx) -> Report {
     let stats = Mutex::new(C06Stats::default());
     for b in &ws {
         let m = model(b, &stats);
-        let out = poolexplore::run_world(ctx, &mut r, b, &m, ctx.depth(4, 5), share);
+        let out = poolexplore::run_world(ctx, &mut r, b, &m, ctx.depth(3, 5), share);
         poolexplore::fold(&mut r, &b.name, &out, &m.alphabet[..3]);
         if !r.violations.is_empty() {
             break;
